@@ -21,7 +21,7 @@ RULE = ("Route tables of 1-4 routes built from segment templates (literals 'a','
         "Router.__call__ on WSGI and on ASGI; one Router object per table serves all its paths, in one order and then reversed, with empty and non-empty root paths "
         "(including a root path equal to the first path segment). Non-trivial = pair where >=2 routes are in the table and the path matches or nearly matches a "
         "typed route; distinct = (table, path).")
-RULE += " Also: 2-5 requests in flight together on one router whose endpoints read their parameters late (generator bodies, endpoints that give way first); non-NFC text, 40% of the tables name every route's placeholders differently and half of those end in a catch-all route (left-over bindings of a failed route become visible). Dispatch under GET / POST / OPTIONS / HEAD / DELETE / CONNECT (also on the empty path); 36-character uuid near misses with the hyphens elsewhere."
+RULE += " Also: 2-5 requests in flight together on one router whose endpoints read their parameters late (generator bodies, endpoints that give way first); non-NFC text, 40% of the tables name every route's placeholders differently and half of those end in a catch-all route (left-over bindings of a failed route become visible). Dispatch under GET / POST / OPTIONS / HEAD / DELETE / CONNECT (also on the empty path); 36-character uuid near misses with the hyphens elsewhere. The values . and .. and values of 2100 / 2600 characters."
 ASSUMPTIONS = [
     "when a path binds to a route in more than one way (e.g. '{x}-{y:int}') only route choice is compared, not parameter values",
     "on WSGI PATH_INFO is the Latin-1 view of the path bytes; the model is applied to the UTF-8 text those bytes stand for (as on ASGI)",
